@@ -548,8 +548,17 @@ static void one_case(long idx, void *arg)
             if (fr != 0) complete_expected[0] = false;
             long sender_inq = 0; veng_kernel_idle(s->e, NULL, &sender_inq, NULL);        /* unread input at close makes the kernel reset the connection: then an error at the receiver is TCP's doing */
             vx_close(s->e);
+            if (!vtp_is_tls(c.tp) && sender_inq == 0 && fr == 0 && vrnd_p(&r, 55)) {
+                /* the receiver is itself sending when the close arrives: one of its sends notices first.  What the closing side had sent is
+                 * still delivered and counted (on the TLS transports this is the known finding of C06 and is left out here) */
+                bool broke = false;
+                for (int k = 0; k < 300 && !broke; k++) { int rc = do_send(&sd[1], &c, &r, maxmsg); if (rc == -1) broke = true; else if (rc == 0) { if (vx_finish(sd[1].e) < 0 && errno != EAGAIN) broke = true; struct pollfd none; vs_real_poll(&none, 0, 1); } }
+                complete_expected[1] = false;
+                if (broke) vobs("receiver_send_noticed_the_close_first", 1);
+            }
             bool q = drain(sd, &c, &r, true);
             if (!q) { vobs("drain_gave_up", 1); ok = false; }
+            else if (prop == P_C17 || prop == P_C03) check_counters(sd[1].e, sd[0].e, 1, false);     /* what the receiver was handed after the close is counted too */
             if (sd[1].e->term == 2 && complete_expected[0] && fr == 0 && sender_inq == 0 && !sd[1].e->n_att) {
                 /* xcm_finish said 0, nothing was unread on the sender's side, the receiver never sent: everything accepted is owed whatever the way the end was reported */
                 vobs("close_seen_as_error_after_clean_flush", 1); owed_despite_error[0] = true;
